@@ -668,6 +668,26 @@ func c14concScenario(sp Spec) *vsched.Scenario {
 		for range jobs {
 			done.Recv()
 		}
+		// epilogue: after all threads are done the main thread observes the cache; whatever
+		// order the concurrent calls are given, the state they leave must explain these too
+		for _, op := range []cop{{Op: "Len"}, {Op: "Cap"}, {Op: "Peek", Base: 0}, {Op: "Peek", Base: 1}} {
+			e := concEvent{thread: len(jobs), op: op}
+			e.res.ID = -1
+			clock++
+			e.call = clock
+			switch op.Op {
+			case "Len":
+				e.res.N = extCache(c).Len()
+			case "Cap":
+				e.res.N = extCache(c).Cap()
+			case "Peek":
+				ex, next := c.Peek(op.Base * blockSpan)
+				e.res.Exists, e.res.Next = ex, memberUnits(next)
+			}
+			clock++
+			e.retn = clock
+			events = append(events, e)
+		}
 	}
 	sc := &vsched.Scenario{
 		Body: body,
